@@ -561,6 +561,9 @@ func FamilyEnum(thorough bool) []*Conv {
 		{"slice", "[]pfxsrc.Color", "[]pfxtgt.Color", "enum:map Red Green"},
 		{"struct", "struct{ E pfxsrc.Color }", "struct{ E pfxtgt.Color }", `enum:transform regex Re(\w+) Gre$1`},
 		{"mapval", "map[string]pfxsrc.Color", "map[string]pfxtgt.Color", "enum:map Red @ignore"},
+		{"only_source_is_enum", "pfxsrc.Color", "int", "enum:map Red @ignore"},
+		{"only_source_is_enum_transform", "pfxsrc.Color", "int", `enum:transform regex Re(\w+) Gre$1`},
+		{"only_target_is_enum", "int", "pfxtgt.Color", "enum:map Red Green"},
 	} {
 		ec := enumCases()[0]
 		out = append(out, &Conv{
@@ -570,6 +573,30 @@ func FamilyEnum(thorough bool) []*Conv {
 			Aux:        map[string]string{"pfxsrc": ec.Src.source("pfxsrc", "Color"), "pfxtgt": ec.Tgt.source("pfxtgt", "Color")},
 			Imports:    []string{`pfxsrc "corpus/GRP/pfxsrc"`, `pfxtgt "corpus/GRP/pfxtgt"`},
 			ExpectFail: true, FailNote: "enum mapping on a method that does not convert an enum to an enum (" + w.name + ")",
+		})
+		// (only the packages the signature names are imported)
+		cv := out[len(out)-1]
+		cv.Imports = nil
+		for _, pk := range []string{"pfxsrc", "pfxtgt"} {
+			if strings.Contains(w.src+" "+w.tgt, pk+".") {
+				cv.Imports = append(cv.Imports, pk+` "corpus/GRP/`+pk+`"`)
+			}
+		}
+	}
+	// ... nor on a method that hands its pair to an extend function of the same signature, or that is an update
+	// method: with enum:map only, with enum:transform only
+	for i, w := range []struct{ name, line string }{
+		{"delegating_map", "enum:map Red Green"}, {"delegating_transform", `enum:transform regex Re(\w+) Gre$1`},
+	} {
+		ec := enumCases()[0]
+		out = append(out, &Conv{
+			ID: "enum/fail_mapping_on_" + w.name, Family: "enum", Format: []string{"struct", "function", "variable"}[i%3], Solo: true,
+			Params: "source pfxsrc.Color", Results: "pfxtgt.Color", ConvLines: []string{"enum:unknown @panic", "extend PFXLegacy"}, MethodLines: []string{w.line},
+			Decls:      "func PFXLegacy(c pfxsrc.Color) pfxtgt.Color { return 0 }\n",
+			Spec:       &Spec{},
+			Aux:        map[string]string{"pfxsrc": ec.Src.source("pfxsrc", "Color"), "pfxtgt": ec.Tgt.source("pfxtgt", "Color")},
+			Imports:    []string{`pfxsrc "corpus/GRP/pfxsrc"`, `pfxtgt "corpus/GRP/pfxtgt"`},
+			ExpectFail: true, FailNote: "enum settings on a method that delegates to an extend function of the same signature (" + w.name + ")",
 		})
 	}
 	// enums declared in the converter's own package with an unexported member; output into that package
